@@ -5,12 +5,12 @@ CONSTANTS
   PoolSize = 7
   Limit = 3
   MaxDepth = 0
-  MaxLevel = 6
+  MaxLevel = 7
   InitBases <- MCInitBases
   Crafts <- CraftsQuick
   Perms = {"owner", "writer", "anyone"}
   Thirds = {"same", "perm", "addr"}
 VIEW MCView
 INVARIANTS MergeCommutes MergeAssoc MergeIdem Converge ClosureModKnown
-PROPERTIES AuthorisedModKnown
+PROPERTIES Authorised
 CHECK_DEADLOCK FALSE
